@@ -24,7 +24,17 @@ fn comp_term(r: &mut Rng, nv: usize, depth: usize) -> T {
     if depth == 0 {
         return leaf(r);
     }
-    match r.below(7) {
+    match r.below(8) {
+        // the same with the Option field AFTER the term field (`Tols(LTerm, Option<P3>)`: reification and walks that
+        // treat non-term children separately must keep what they did for the earlier field — seeded change C20-g)
+        7 => {
+            let opt = if r.chance(1, 2) {
+                T::Comp(4, vec![])
+            } else {
+                T::Comp(4, vec![T::Comp(1, (0..3).map(|_| comp_term(r, nv, depth - 1)).collect())])
+            };
+            T::Comp(5, vec![if r.chance(1, 2) { T::Var(r.below(nv)) } else { comp_term(r, nv, depth - 1) }, opt])
+        }
         // a compound with an `Option` field: `Slot(Some(P3(a, b, c)), t)` / `Slot(None, t)` — the Option object has one
         // child or none, so two objects of the SAME type can have different numbers of children
         6 => {
@@ -57,6 +67,24 @@ fn tree_prog(r: &mut Rng) -> Prog {
         let b = match (&a, r.below(6)) {
             // a Slot against a Slot: the Option field flipped (Some vs None must never unify) or its fields varied; the
             // Option field itself is not a term, so it is never replaced by a variable
+            (T::Comp(5, args), _) => {
+                let opt = match &args[1] {
+                    T::Comp(4, k) if k.is_empty() => {
+                        if r.chance(1, 2) { T::Comp(4, vec![T::Comp(1, (0..3).map(|_| comp_term(r, nv, 1)).collect())]) } else { args[1].clone() }
+                    }
+                    T::Comp(4, k) => {
+                        if r.chance(1, 3) {
+                            T::Comp(4, vec![])
+                        } else if let T::Comp(1, abc) = &k[0] {
+                            T::Comp(4, vec![T::Comp(1, abc.iter().map(|x| if r.chance(1, 2) { T::Var(r.below(nv)) } else { x.clone() }).collect())])
+                        } else {
+                            args[1].clone()
+                        }
+                    }
+                    other => other.clone(),
+                };
+                T::Comp(5, vec![if r.chance(1, 2) { T::Var(r.below(nv)) } else { args[0].clone() }, opt])
+            }
             (T::Comp(3, args), _) => {
                 let opt = match &args[0] {
                     T::Comp(4, k) if k.is_empty() => {
